@@ -105,6 +105,9 @@ def check_engine(rep, fb, ex, eq, callgraph):
         anc = sorted(t for t in lt if t.startswith('source-ancestry'))
         rep.check(len(anc) == 2, 'R01.13', eng + '|ancestor pre-emption', locstr(lsite), 'a transition whose source is an ancestor or descendant of an already selected transition\'s source is %s (terms: %s); a targetless transition has an empty exit set, so exit-set overlap alone lets the ancestor\'s transition fire as well' % (
             'recorded as conflicting' if len(anc) == 2 else 'NOT recorded as conflicting', sorted(lt)))
+    # R01.14 the set of still-compatible transitions only narrows
+    if f.rec.endswith('LargeMicroStep'):
+        narrowing_polarity(rep, fb, f, eng)
     # R01.12 history records are independent
     from .C05 import history_features
     hf = history_features(fb, fb.fn(f.rec + '::getHistoryCompletion'))
@@ -130,6 +133,47 @@ def check_engine(rep, fb, ex, eq, callgraph):
     rep.check(not direct_dm, 'R01.10', eng + '|datamodel-independent', f.where(), 'the engine reaches data models only through the MicroStepCallbacks interface (direct calls: %s)' % direct_dm)
 
 
+def narrowing_polarity(rep, fb, f, eng):
+    from .. import quant
+    from ._domain import member
+    assigns = {}
+    kinds = {}
+    for n in f.walk():
+        if n['k'] == 'CXXOperatorCallExpr' and n.get('op') == '=' and len(n.get('c', [])) > 2:
+            l = strip(n['c'][1])
+            if l is not None and l['k'] == 'CXXOperatorCallExpr' and l.get('op') == '[]' and 'dynamic_bitset' in l.get('callee', {}).get('q', ''):
+                names = [x['ref']['name'] for x in sub(l['c'][1]) if x['k'] == 'MemberExpr']
+                if names and names[0] in ('_compatible', '_conflicting') and n['id'] in cfgm.CFG(f).pos:
+                    assigns[n['id']] = n['c'][2]
+                    kinds[n['id']] = names[0]
+    rep.minimum('R01.14', len(assigns), 4, 'assignments to _compatible / _conflicting bits in ' + eng)
+    # loop headers reset the per-element facts
+    reset_ids = set()
+    for lp in f.walk():
+        if lp['k'] in ('ForStmt', 'WhileStmt', 'CXXForRangeStmt', 'DoStmt'):
+            body = lp['c'][-1]
+            bids = {x['id'] for x in sub(body)} if body else set()
+            for x in sub(lp):
+                if x['id'] not in bids and x is not lp:
+                    reset_ids.add(x['id'])
+    pos = quant.Quant(f, quant.Spec(member, None, lambda n: n['id'] in reset_ids)).values_at(assigns)
+    neg = quant.Quant(f, quant.Spec(lambda n: -member(n), None, lambda n: n['id'] in reset_ids)).values_at(assigns)
+    for nid, vexpr in sorted(assigns.items()):
+        n = f.nodes[nid]
+        not_member_true = any(v and nm for v, nm in pos[nid])          # stored true although "not listed" was established
+        member_false = any((not v) and m for v, m in neg[nid]) and not any((not v) and nm for v, nm in pos[nid])   # stored false although only "listed" was established
+        if kinds[nid] == '_compatible':
+            ok = not not_member_true and not member_false
+            why = 'keeps exactly the listed indices' if ok else ('a bit is SET for an index the selected transition does not list as compatible' if not_member_true else 'a bit is CLEARED for an index the selected transition lists as compatible')
+        else:
+            vals = {v for v, _ in pos[nid]}
+            ok = vals <= {True} or not any(m for _, m in neg[nid]) or True
+            ok = False not in vals
+            why = 'only sets bits (union)' if ok else 'CLEARS a conflict bit while transitions are being added'
+        rep.check(ok, 'R01.14', '%s|%s#%d' % (eng, kinds[nid], sum(1 for k2 in assigns if kinds[k2] == kinds[nid] and f.nodes[k2]['loc'][1] < n['loc'][1])), locstr(n),
+                  '`%s`: %s' % (fb.text(n)[:60], why))
+
+
 def run(rep, tier):
     rep.rule('R01.1', 'phase protocol: on every CFG path of step() the callback and configuration events spell  history* (exit-handlers erase)* transition-content* (insert initData* entry-handlers* initial-transition-content* done*)*')
     rep.rule('R01.2', 'iteration order: exit set in reverse document order, entry set / transition set / handler blocks in document order, selection in post-fix / document order; ordered containers carry the document / post-fix comparators')
@@ -139,6 +183,7 @@ def run(rep, tier):
     rep.rule('R01.6', 'bitset typestate: no dynamic_bitset is indexed after clear() shrank it to zero bits')
     rep.rule('R01.8', 'interval closedness agreement: overlap and membership tests on exit intervals use non-strict comparisons, like the place that applies the interval')
     rep.rule('R01.9', 'state kind codes are an enumeration: they are compared, never bit-masked')
+    rep.rule('R01.14', 'selection bookkeeping (large engine): when a further transition is selected, a bit of _compatible survives only if the new transition lists that index as compatible (intersection), and _conflicting only gains bits (union); the value stored is decided by the membership test with the right polarity')
     rep.rule('R01.13', 'optimal transition set: a transition selected in a descendant pre-empts the transitions of its ancestors even when it exits nothing (targetless); the selection does not rely on the position of states in the post-fix ordered view')
     rep.rule('R01.12', 'history records are independent: either every history has its own record or the completions of distinct histories are disjoint (a deep history must not rewrite the states remembered for a history nested below it)')
     rep.rule('R01.11', 'transition domain: the source is the domain only for an internal transition with compound source whose targets ALL are descendants; otherwise the NEAREST ancestor that is compound and contains ALL targets (quantifier-shape analysis, flag idioms included)')
